@@ -355,6 +355,10 @@ DEPLOY_SOURCES = {
     "s2": {"type": "dir", "entries": {"c.txt": {"type": "file", "content": "C"},
                                       "lnk": {"type": "link", "target": "c.txt"}}},
     "s3": {"type": "dir", "entries": {}},
+    # a folder meant for conf: the names deployment writes the workflow definition to are links to files elsewhere
+    "s4": {"type": "dir", "entries": {"flowir_package.yaml": {"type": "link", "target": "../s1/a.txt"},
+                                      "dsl.yaml": {"type": "link", "target": "../s2/c.txt"},
+                                      "notes.txt": {"type": "file", "content": "N"}}},
 }
 DP_SRC = PAD + ["pkgsrc"]
 
@@ -420,7 +424,15 @@ def run_deploy(case, root, location_rel, twin=False):
                 else:
                     arg = man
                 package = S.ExperimentPackage.packageFromLocation(wf, manifest=arg)
-                S.ExperimentInstanceDirectory.newInstanceDirectory(loc, package, stamp=False, name="inst")
+                if case["entry"] == "experiment":
+                    # the whole deployment: instance directory, then stage / component working directories and inputs
+                    import experiment.model.data as D
+                    D.Experiment.experimentFromPackage(
+                        package, location=loc, timestamp=False, instance_name="inst",
+                        inputs=[os.path.join(root, *DP_SRC, "s1", "a.txt")] if case.get("with_input") else None,
+                        createApplicationLinks=False, createVirtualEnvLinks=False)
+                else:
+                    S.ExperimentInstanceDirectory.newInstanceDirectory(loc, package, stamp=False, name="inst")
     except rejections as e:
         return "rejected", e
     except Exception as e:                                      # noqa
@@ -836,13 +848,30 @@ def deploy_case(draw):
         # a folder that deployment itself writes into, populated by the manifest - linked from outside in particular
         tags.append("reserved-key")
         special = [{"key": draw(st.sampled_from(["conf", "conf", "./conf", "conf/", "bin/../conf", "input", "output",
-                                                 "./input"])), "src": "s1",
+                                                 "./input", "stages", "stages", "./stages", "stages/stage0"])),
+                    "src": "s1",
                     "method": draw(st.sampled_from(["link", "link", "copy", None])), "abs_src": draw(st.booleans())}]
+        if _top(special[0]["key"]) == "conf" and special[0]["method"] != "link" and draw(st.booleans()):
+            # conf is copied into the instance, but the place of the workflow definition inside it is a link: a folder
+            # that holds such links, or a further manifest entry that links the file name itself
+            if draw(st.booleans()):
+                special[0]["src"] = "s4"
+            else:
+                special.append({"key": draw(st.sampled_from(["conf/flowir_package.yaml", "conf/./flowir_package.yaml",
+                                                             "conf/dsl.yaml"])),
+                                "src": draw(st.sampled_from(["s1/a.txt", "s2/c.txt"])), "method": "link",
+                                "abs_src": draw(st.booleans())})
     elif mode == "ambiguous":
         tags.append("ambiguous")
         special = [{"key": draw(st.sampled_from(AMBIG_KEYS)), "src": "s1", "method": draw(st.sampled_from([None, "link"]))}]
     else:
         tags.append("benign")
+    if mode == "reserved":
+        if _top(special[0]["key"]) != "conf" and draw(st.booleans()):
+            # the folders that the rest of the deployment (not expandPackageToDirectory) fills: go all the way
+            case["entry"] = "experiment"
+            case["via"] = draw(st.sampled_from(["dict", "file"]))
+            case["with_input"] = draw(st.booleans())
     have = {e["key"] for e in special}
     benign = [e for e in benign if e["key"] not in have]
     # interleave keeping the order of the special entries
